@@ -15,6 +15,17 @@ class HelloRoute(HttpWebServerBasePlugin):
         self.client.queue(okResponse(b'hello:' + (request.path or b''), headers={b'X-Route': b'hello'}))
 
 
+class ByeRoute(HttpWebServerBasePlugin):
+    """A second, independent web-server plugin: GET /bye<anything>. Like real route plugins it answers only what it registered."""
+
+    def routes(self):
+        return [(httpProtocolTypes.HTTP, r'/bye')]
+
+    def handle_request(self, request):
+        if (request.path or b'').startswith(b'/bye'):
+            self.client.queue(okResponse(b'bye:' + (request.path or b''), headers={b'X-Route': b'bye'}))
+
+
 class Routes(ReverseProxyBasePlugin):
     """Reverse-proxy routes: /get -> up1.example:80/get ; /api/.* -> up2.example:8080/v1 ; /both -> either upstream ; /lit -> literal response."""
 
@@ -34,6 +45,7 @@ class Routes(ReverseProxyBasePlugin):
 FLAGS = {
     'forward': FlagParser.initialize(['--threadless']),
     'web': FlagParser.initialize(['--threadless', '--enable-web-server', '--disable-http-proxy'], plugins=[HelloRoute]),
+    'web2': FlagParser.initialize(['--threadless', '--enable-web-server', '--disable-http-proxy'], plugins=[HelloRoute, ByeRoute]),
     'reverse': FlagParser.initialize(['--threadless', '--enable-reverse-proxy', '--disable-http-proxy'], plugins=[Routes]),
     'all': FlagParser.initialize(['--threadless', '--enable-web-server', '--enable-reverse-proxy'], plugins=[HelloRoute, Routes]),
 }
